@@ -183,8 +183,8 @@ pub fn escape_ts_string(value: &str) -> String {
     escaped
 }
 
-/// Like [`escape_ts_string`], for a name given as an expression: string literals are escaped,
-/// any other expression is left as it is.
+/// Like [`escape_ts_string`], for a name given as an expression: string literals are escaped
+/// here, the value of any other expression is escaped when it is evaluated.
 pub fn escape_ts_string_expr(expr: &Expr) -> Expr {
     match expr {
         Expr::Lit(ExprLit {
@@ -195,7 +195,22 @@ pub fn escape_ts_string_expr(expr: &Expr) -> Expr {
         Expr::Group(syn::ExprGroup { expr, .. }) | Expr::Paren(syn::ExprParen { expr, .. }) => {
             escape_ts_string_expr(expr)
         }
-        other => other.clone(),
+        other => syn::parse_quote!({
+            let name = ::std::string::ToString::to_string(&(#other));
+            let mut escaped = ::std::string::String::new();
+            for c in name.chars() {
+                match c {
+                    '"' => escaped.push_str("\\\""),
+                    '\\' => escaped.push_str("\\\\"),
+                    '\n' => escaped.push_str("\\n"),
+                    '\r' => escaped.push_str("\\r"),
+                    '\u{2028}' => escaped.push_str("\\u2028"),
+                    '\u{2029}' => escaped.push_str("\\u2029"),
+                    c => escaped.push(c),
+                }
+            }
+            escaped
+        }),
     }
 }
 
